@@ -3,6 +3,7 @@ compiler-generated names."""
 from __future__ import annotations
 
 import ast
+import re
 from typing import Dict, List, Optional, Set, Tuple
 
 from engine import AnalysisError
@@ -525,9 +526,73 @@ def r4_boundary_vocabulary(ctx, rid):
                                       f"(only in one: {sorted(chars ^ chars2)})", facts, label="sibling boundary sets agree")
 
 
+
+def r5_literals_inlined_exactly(ctx, rid):
+    """A right-hand side that is constant is stored by the parser as a `dummy_constant` variable and inlined into the generated
+    source as a literal.  The text must identify the float exactly - `str(x)` / `repr(x)` are shortest round-trip forms - while a
+    format specification (`:g`, `:f`, `:.6e`, round(...)) truncates it: the generated code and the direct evaluation of the
+    parsed expression then disagree."""
+    import ast as _ast
+    from engine import AnalysisError as _AE
+    f = ctx.repo.get_func("pyrates/backend/computegraph.py", "ComputeGraph._node_to_expr")
+    branches = [st for st in walk_shallow(f.node) if isinstance(st, _ast.If) and "dummy_constant" in _ast.unparse(st.test)]
+    if len(branches) != 1:
+        raise _AE(f"{rid}: the dummy_constant branch of _node_to_expr was not found")
+    br = branches[0]
+    syms = [c for b in br.body for c in _ast.walk(b) if isinstance(c, _ast.Call) and call_name(c) == "Symbol" and c.args]
+    if len(syms) != 1:
+        raise _AE(f"{rid}: expected one Symbol(<literal text>) in the dummy_constant branch, found {len(syms)}")
+    arg = syms[0].args[0]
+    # value chain: val = float(np.squeeze(node.value))
+    def lossy(e) -> Optional[str]:
+        if isinstance(e, _ast.JoinedStr):
+            for v in e.values:
+                if isinstance(v, _ast.FormattedValue) and v.format_spec is not None:
+                    spec = "".join(x.value for x in v.format_spec.values if isinstance(x, _ast.Constant))
+                    m = re.fullmatch(r"[<>^=+\- ]*\d*(?:\.(\d+))?([efgEFG%n]?)", spec)
+                    if m is None or m.group(2) or (m.group(1) is not None):
+                        prec = int(m.group(1)) if m and m.group(1) else 6
+                        if m is None or prec < 17:
+                            return f"format specification `:{spec}` keeps {prec} digits"
+            return None
+        if isinstance(e, _ast.Call) and call_name(e) == "format" and e.args and isinstance(e.args[-1], _ast.Constant):
+            return f"format(..., {e.args[-1].value!r})"
+        if isinstance(e, _ast.Call) and call_name(e) in ("round", "around") :
+            return "the value is rounded before it is printed"
+        if isinstance(e, _ast.BinOp) and isinstance(e.op, _ast.Mod) and isinstance(e.left, _ast.Constant) and isinstance(e.left.value, str):
+            return f"%-formatting `{e.left.value}`"
+        return None
+    chain = [arg]
+    if isinstance(arg, _ast.Call) and call_name(arg) in ("str", "repr") and arg.args:
+        chain.append(arg.args[0])
+    for n in list(chain):
+        if isinstance(n, _ast.Name):
+            v = single_def_value_local(ctx, f, n)
+            if v is not None:
+                chain.append(v)
+    problems = [w for w in (lossy(x) for e in chain for x in _ast.walk(e)) if w]
+    exact_form = isinstance(arg, _ast.Call) and call_name(arg) in ("str", "repr")
+    facts = {"literal_text": _ast.unparse(arg)}
+    if problems:
+        ctx.violation(rid, f, syms[0], f"a constant right-hand side is inlined into the generated code as `{_ast.unparse(arg)}`: {problems[0]}, "
+                                       f"so the generated function returns a truncated value while the parsed expression evaluates exactly", facts,
+                      label="constant right-hand side inlined with a round-trip-exact literal")
+    elif exact_form:
+        ctx.ok(rid, f, syms[0], "the constant is inlined as str()/repr() of the float (shortest round-trip text)", facts,
+               label="constant right-hand side inlined with a round-trip-exact literal")
+    else:
+        raise _AE(f"{rid}: unrecognised literal text `{_ast.unparse(arg)}`")
+
+
+def single_def_value_local(ctx, f, n):
+    from engine.util import single_def_value
+    return single_def_value(ctx, f, n)
+
+
 RULES = [
     ("C05-R1", r4_fresh_name_generator, 6),
     ("C05-R2", r2_generated_names_never_overwrite, 3),
     ("C05-R3", r3_reserved_parts_cover_generated_names, 18),
     ("C05-R4", r4_boundary_vocabulary, 1),
+    ("C05-R5", r5_literals_inlined_exactly, 1),
 ]
